@@ -88,8 +88,8 @@ Rows ==
     \cup {[class |-> cl, s1 |-> s, s2 |-> t] : cl \in {"pair", "sum_pair"}, s \in Shapes, t \in Shapes}
     \cup {[class |-> cl, s1 |-> s, axis |-> a, wlen |-> w] : cl \in {"axisw", "sum_axisw"}, s \in Shapes, a \in 0..2, w \in 0..4}
     \cup {[class |-> "quant", s1 |-> s, axis |-> a, qv |-> v] : s \in Shapes, a \in 0..2, v \in QVs}
-ValidRow(c) == /\ ("axis" \in DOMAIN c) => c.axis < Len(c.s1)
-               /\ ("s2" \in DOMAIN c) => Len(c.s2) = Len(c.s1)
+(* pairs of different rank are included: with dynamic dimensions (IxDyn) both arguments have the same static type *)
+ValidRow(c) == ("axis" \in DOMAIN c) => c.axis < Len(c.s1)
 
 Init == d \in {c \in Rows : ValidRow(c)} /\ pc = "call"
 Next == pc = "call" /\ pc' = "done" /\ UNCHANGED d
